@@ -96,13 +96,17 @@ def gen_case(rng):
         prog.append(("SSetSettings", t, max(positions) + 3, 0, 1, 0, 0))
     u, v, w = regs.S(), regs.S(), regs.S()
     first_name = "zzz"
-    prog += [("OSCheck", s), ("OSChannels", s), ("OSForge", s, True, True, False), ("SAdd", s, t, u), ("SAdd", t, s, v),
+    prog += [("OSSR", s), ("OSCheck", s), ("OSChannels", s), ("OSForge", s, True, True, False), ("SAdd", s, t, u), ("SAdd", t, s, v),
              ("TRepeat", s, [1], [chans[0]], [first_name], ["duration"], [[0.5]], w),
              ("OSAwg", s, ("slice", None, None, None)), ("OSSeqx", s, False), ("OSSeqx", s, True), ("OSLen", u), ("OSLen", v)]
     return {"prog": prog, "kind": deviation or ("gap" if gap else ("missing-" + missing if missing else "consistent")),
             "positions": positions, "order": order, "entries": {str(k): v for k, v in entries.items()},
             "have_sr": have_sr, "missing": missing, "deviation": deviation, "nent": nent, "long": long,
             "chans": [str(c) for c in chans]}
+
+
+def case_sr(case):
+    return next(o[2] for o in case["prog"] if o[0] == "SSetSR")
 
 
 def oracle(case, impl):
@@ -113,6 +117,8 @@ def oracle(case, impl):
     for op, r in zip(prog, impl):
         res.setdefault(op[0], []).append(r)
     chk = res["OSCheck"][0]
+    if res["OSSR"][0] != (case_sr(case) if case["have_sr"] else -1):
+        out.append(f"Sequence.SR is {res['OSSR'][0]!r}, expected the setting or -1 when none was made")
     if not case["have_sr"]:
         return out                        # checkConsistency raises without a sample rate: outside the iff
     ent = case["entries"]
